@@ -76,6 +76,16 @@ def gen_specs(rep, tier):
     same = [[3, 3]] * 4
     spec('point', same, 'line', [[0, 0, 1, 1]] * 4, 'g', [0, 2, 4], [1, 3], [15])
     spec('line', [None] * 3, 'point', [[1, 1], [2, 2], None], 'g', [0, 1, 3], [1, 2], [5])
+    # 0b. every p of the property's range on frames covering all four quadrants of the extent
+    #     (distances in the second half of the curve, >= 2^(2p-1), occur)
+    quad = [[0, 0], [8, 8], [0, 8], [8, 0], [6, 6], [2, 6], [6, 2], None, [1, 1], [7, 1]]
+    spec('point', quad, 'line', [[i, 0, 8 - i, i] for i in range(10)], 'g', [0, 4, 10], [2],
+         list(range(1, 21)))
+    if not quick:
+        for kind in G.KINDS:
+            spec(kind, [None if q is None else U.shape(kind, q[0], q[1], q[0], q[1] + (kind != 'point'))
+                        for q in quad], 'point', quad, rng.choice(['g', 'h']), [0, 3, 3, 10],
+                 [1, 3], list(range(1, 21)))
     # A. one frame, every input partitioning, a few (npartitions, p)
     for kind in (['point', 'polygon'] if quick else G.KINDS):
         els = C06.template(kind, 0)
@@ -121,6 +131,10 @@ def gen_specs(rep, tier):
         seq(kind, 1 - t, 'h', [['pack', 2, 15], ['set_geometry', 'g'], ['pack', 2, rng.choice([5, 20])],
                                ['set_geometry', 'h'], ['pack', 3, 15]])
         seq(kind, t, 'g', [['pack', 3, p1], ['pack', 2, p1], ['set_geometry', other], ['pack', 2, 5]])
+        how = ['lazy', 'compute', 'pack', 'total_bounds'][(ki + rep.seed) % 4]
+        seq(kind, t, 'g', [['sibling', 'h', how], ['pack', n1, p1]])
+        seq(kind, 1 - t, 'h', [['cache', 'sindex'], ['sibling', 'g', 'lazy'], ['pack', 2, 15],
+                               ['sibling', 'g', 'compute'], ['pack', 3, rng.choice(PS)]])
         if not quick:
             for _ in range(10):
                 ops = []
@@ -214,7 +228,7 @@ def check_packing(ctx, spec, df, X, npart, p, tag, baseline):
     if list(out.columns) != cols or U.active_name(P) != an or U.active_name(out) != an:
         rep.violation('columns-or-geometry-changed',
                       f'packed frame has columns {list(out.columns)} / active geometry '
-                      f'{U.active_name(out)!r}, input {cols} / {an!r}', info)
+                      f'{U.active_name(out)!r} (collection meta: {U.active_name(P)!r}), input {cols} / {an!r}', info)
         return None
     a = sorted(r[1:] for r in U.frame_sig(out))
     b = sorted(r[1:] for r in U.frame_sig(df))
@@ -233,6 +247,12 @@ def check_packing(ctx, spec, df, X, npart, p, tag, baseline):
                       f'but its Hilbert distance against the whole frame is '
                       f'{wrong[0][2] if wrong else "?"} (p={p})', info)
         return None
+    if any(type(i) is not int or i < 0 or i >= 4 ** p for i in idx):
+        rep.violation('key-out-of-range', f'an index value lies outside [0, 4^{p}): {idx}', info)
+        return None
+    if max(idx, default=0) >= 2 ** (2 * p - 1):
+        rep.count('second-half-of-curve')
+        rep.count(f'p={p}:second-half')
     if len(set(key.values())) > 1:
         rep.nontrivial((spec['kind_g'], spec['active'], repr(spec['els_g']), repr(spec['cuts']),
                         npart, p, tag, repr(spec.get('seq')), spec.get('seq_step')))
@@ -324,6 +344,21 @@ def run_seq(ctx, spec, df, X):
             elif op[0] == 'set_geometry':
                 X = X.set_geometry(op[1])
                 ref = ref.set_geometry(op[1])
+            elif op[0] == 'sibling':
+                # derive another frame from X (X itself must stay what it was)
+                other = X.set_geometry(op[1])
+                if op[2] == 'compute':
+                    other.compute()
+                elif op[2] == 'pack':
+                    other.pack_partitions(npartitions=2, p=5).compute()
+                elif op[2] == 'total_bounds':
+                    other.geometry.total_bounds
+                rep.count('sibling-derived')
+                if U.active_name(X) != U.active_name(ref):
+                    rep.violation('sibling-changed-parent',
+                                  f'deriving ddf.set_geometry({op[1]!r}) changed the active geometry '
+                                  f'of ddf itself to {U.active_name(X)!r}', {'spec': spec})
+                # go on: the packing below is still checked against the parent's own column
             elif op[0] == 'pack':
                 n, p = op[1], op[2]
                 tag = 'pack' if npacks == 0 else 'repack'
